@@ -86,6 +86,11 @@ struct mspan {
   bool alive = false;
   T* data = nullptr;
   std::size_t len = 0;
+  // The state of a moved-from qsbr_ptr_span is not specified (qsbr_ptr documents "leaving it nullptr", the
+  // span does not, and the statement speaks of the span "it was built from"): its pointer is OBSERVED - it may
+  // be null or still the old one, which decides whether it counts as a live non-null wrapper - and its size
+  // and contents are not checked until it is assigned to again. Copies of it inherit the flag.
+  bool unspecified = false;
 };
 
 struct outcome {
@@ -130,6 +135,13 @@ outcome run_seq(const std::vector<qop>& seq, stats* st) {
       r.msg = "op#" + std::to_string(i) + " " + op_text(seq[static_cast<std::size_t>(i)]) + ": " + m;
       r.at = i;
     }
+  };
+  auto observe_moved_from = [&](int sb, int i) {
+    T* const old = msp[sb].data;
+    T* const now = span[sb]->begin().get();
+    if (now != nullptr && now != old) fail(i, "the moved-from span points to memory it was never given");
+    msp[sb].data = now;
+    msp[sb].unspecified = true;
   };
   auto in_range = [&](const mslot& s, long delta, bool deref) {
     if (s.buf < 0) return false;
@@ -314,22 +326,25 @@ outcome run_seq(const std::vector<qop>& seq, stats* st) {
         if (msp[sa].alive || !msp[sb].alive || sa == sb) break;
         span[sa].emplace(std::move(*span[sb]));
         msp[sa] = msp[sb];
-        msp[sb].data = nullptr;  // the wrapped qsbr_ptr is moved from
+        observe_moved_from(sb, i);
         break;
       case SPAN_COPY_ASSIGN:
         if (!msp[sa].alive || !msp[sb].alive || sa == sb) break;
         *span[sa] = *span[sb];
         msp[sa].data = msp[sb].data;
         msp[sa].len = msp[sb].len;
+        msp[sa].unspecified = msp[sb].unspecified;
         break;
       case SPAN_MOVE_ASSIGN:
         if (!msp[sa].alive || !msp[sb].alive || sa == sb) break;
         *span[sa] = std::move(*span[sb]);
         msp[sa].data = msp[sb].data;
         msp[sa].len = msp[sb].len;
-        msp[sb].data = nullptr;
+        msp[sa].unspecified = msp[sb].unspecified;
+        observe_moved_from(sb, i);
         break;
       case SPAN_ITERATE: {
+        if (msp[sa].alive && msp[sa].unspecified) break;
         if (!msp[sa].alive || msp[sa].data == nullptr) {
           if (msp[sa].alive && span[sa]->size() != msp[sa].len && msp[sa].data != nullptr) fail(i, "size() differs");
           break;
@@ -376,7 +391,12 @@ outcome run_seq(const std::vector<qop>& seq, stats* st) {
         if (ms[k].alive && slot[k]->get() != ms[k].p) fail(i, "afterwards wrapper slot " + std::to_string(k) + " no longer equals its raw pointer");
       for (int k = 0; k < NSPAN && r.ok; ++k) {
         if (!msp[k].alive) continue;
-        if (msp[k].data == nullptr) continue;  // default / null / moved-from: size is unspecified by the statement
+        if (msp[k].unspecified) {
+          // moved-from (or a copy of one): only the pointer is tracked, by observation
+          if (span[k]->begin().get() != msp[k].data) fail(i, "afterwards moved-from span " + std::to_string(k) + " changed its pointer without being assigned to");
+          continue;
+        }
+        if (msp[k].data == nullptr) continue;  // default / null: size is unspecified by the statement
         if (span[k]->size() != msp[k].len) {
           fail(i, "afterwards span " + std::to_string(k) + " has size " + std::to_string(span[k]->size()) + ", the span it stands for has " + std::to_string(msp[k].len));
           break;
